@@ -18,7 +18,7 @@ EXPLANATION = (
     "write/read classifier (worder get_assignment_type) is guarded by a membership/equality test of that very value "
     "against a constant collection that folds to a subset of the interpreter's assignment operators "
     "(token.EXACT_TOKEN_TYPES ending in '=' minus comparisons).  R04.3 (=R06.1): the definition parser pairs default "
-    "values with exactly posonlyargs + args.  The text of the inlined code is not decided."
+    "values with exactly posonlyargs + args.  R04.4 (=R07.11): the import merger decides 'already imported' on (name, alias) pairs.  The text of the inlined code is not decided."
 )
 ASSUMPTIONS = ["alias tracking is flow-insensitive (x = self.attr makes x an alias for the whole method)",
                "dict()/list()/set()/.copy()/sorted()/slicing create copies"]
@@ -147,3 +147,8 @@ def check(ctx, res) -> None:
                 "defaults are paired with exactly posonlyargs + args" if pr.ok else
                 f"defaults are zipped with a list derived from {sorted(pr.labels)} instead of exactly posonlyargs + args: inline binds default values "
                 "to the wrong parameters at every call site that relies on a default")
+
+    # ---- R04.4 (=R07.11): inline adds the imports the inlined body needs through the import merger
+    from .c07 import _alias_pair_rule
+
+    _alias_pair_rule(ctx, res, "R04.4")
